@@ -44,6 +44,10 @@ pub enum Op {
         #[serde(default)]
         corrupt_kind: u8,
     },
+    /// prove and verify under caller-supplied Pedersen generators in which blinding generator `k` (or H,
+    /// if `k` is None) is the identity element; refused or not, the outcome must not depend on what
+    /// other calls happened before
+    WithIdentityGenerator { desc: ProveDesc, k: Option<usize>, action: usize },
     /// a failed proving attempt (witness that does not open the commitment) on a transcript object,
     /// then the honest attempt on the SAME transcript object: the failed call must leave no trace
     ProveAfterFailedAttempt(ProveDesc),
@@ -125,6 +129,43 @@ pub fn exec_op<G: Group>(env: &mut Env<G>, client: usize, op: &Op) -> String {
             format!("gens:{}", digest(&[&bytes]))
         },
         Op::Prove(d) => prove_desc(env, client, d).0,
+        Op::WithIdentityGenerator { desc: d, k, action } => {
+            use curve25519_dalek::traits::Identity;
+            use tari_bulletproofs_plus::traits::Compressable;
+            // the statement under generators containing the identity comes FIRST: in a fresh process this
+            // is the first use of that extension degree
+            let mut pc = G::pedersen(d.cfg.ext);
+            match k {
+                Some(k) => {
+                    let k = *k % d.cfg.ext;
+                    pc.g_base_vec[k] = G::identity();
+                    pc.g_base_compressed_vec[k] = G::identity().compress();
+                },
+                None => {
+                    pc.h_base = G::identity();
+                    pc.h_base_compressed = G::identity().compress();
+                },
+            }
+            let params = custom_params::<G>(d.cfg.bits, d.cfg.cap, pc);
+            let built = build_with_params::<G>(params, &d.cfg, &d.wit);
+            let (pr, _) = prove_mode::<G>(&d.ctx, &built.statement, &built.witness, &d.rng);
+            let p_out = match &pr {
+                Ok(Ok(p)) => format!("proof:{}", digest(&[&G::to_bytes(p)])),
+                Ok(Err(e)) => format!("err:{}", err_class(e)),
+                Err(c) => format!("caught:{:?}", c),
+            };
+            // an honest proof under the standard generators (through the shared pool), verified under
+            // the statement with the identity generator
+            let honest = prove_desc(env, client, &ProveDesc { rng: RngMode::Healthy(5), ..d.clone() }).1;
+            let v_out = match honest {
+                Some((_, hp)) => {
+                    let r = verify_one::<G>(&d.ctx, &built.statement, &hp, action_from(*action));
+                    digest(&[render_verify(&r).as_bytes()])
+                },
+                None => "n/a".to_string(),
+            };
+            format!("identity-generator:{}|verify:{}", p_out, v_out)
+        },
         Op::ProveAfterFailedAttempt(d) => {
             let params = env.params(client, d.cfg.bits, d.cfg.cap, d.cfg.ext);
             let built = build_with_params::<G>(params.clone(), &d.cfg, &d.wit);
@@ -132,6 +173,8 @@ pub fn exec_op<G: Group>(env: &mut Env<G>, client: usize, op: &Op) -> String {
             let mut wrong = d.wit.clone();
             wrong.blind_seed = wrong.blind_seed.wrapping_add(1);
             wrong.zero_blind.clear();
+            wrong.special_blind = None;
+            wrong.same_as_prev.clear();
             let bad = build_with_params::<G>(params, &d.cfg, &wrong);
             let mut t = d.ctx.transcript();
             let mut r1 = crate::faultrng::FaultRng::new(RngMode::Healthy(1));
@@ -378,6 +421,7 @@ fn op_kind(op: &Op) -> String {
         Op::Prove(_) => "prove",
         Op::Verify { .. } => "verify",
         Op::ProveAfterFailedAttempt(_) => "prove_after_failed_attempt",
+        Op::WithIdentityGenerator { .. } => "with_identity_generator",
         Op::Codec(_) => "codec",
         Op::DropClones => "drop",
     }
@@ -463,13 +507,16 @@ impl Check for C18 {
     fn generate(&self, rng: &mut SimRng, tier: Tier, index: u64) -> Scenario {
         let free = index % 3 == 0;
         let max_full = if free { 64 } else if tier == Tier::Quick { 16 } else { 64 };
-        let n_clients = rng.range(3, 6) as usize;
-        let max_ops = if tier == Tier::Quick { 14 } else { 30 };
+        // a long warm-up now and then: two clients, several hundred cheap operations each
+        let long = index % 48 == 5;
+        let max_full = if long { 4 } else { max_full };
+        let n_clients = if long { 2 } else { rng.range(3, 6) as usize };
+        let max_ops = if long { 340 } else if tier == Tier::Quick { 14 } else { 30 };
         let mut clients = Vec::new();
         // a few descriptors shared between clients so that identical calls occur in different histories
         let shared: Vec<ProveDesc> = (0..3).map(|_| gen_prove(rng, max_full, false)).collect();
         for _ in 0..n_clients {
-            let n_ops = rng.range(5, max_ops) as usize;
+            let n_ops = if long { rng.range(300, max_ops) as usize } else { rng.range(5, max_ops) as usize };
             let mut ops = Vec::new();
             for _ in 0..n_ops {
                 let pd = |rng: &mut SimRng| -> ProveDesc {
@@ -484,7 +531,15 @@ impl Check for C18 {
                         let c = Config::generate(rng, max_full, 4);
                         Op::Construct { bits: c.bits, cap: c.cap, ext: c.ext }
                     },
-                    1 => Op::DropClones,
+                    1 => {
+                        if rng.chance(1, 2) {
+                            Op::DropClones
+                        } else {
+                            let d = gen_prove(rng, max_full, false);
+                            let k = if rng.chance(1, 4) { None } else { Some(rng.usize_below(d.cfg.ext)) };
+                            Op::WithIdentityGenerator { desc: d, k, action: rng.usize_below(3) }
+                        }
+                    },
                     2 | 3 | 4 => Op::Prove(pd(rng)),
                     5 => Op::Prove(gen_prove(rng, max_full, true)),
                     6 => {
